@@ -178,6 +178,10 @@ class Scenario:
         self.out.close()
 
 
+def _user_handler(signum, frame):
+    pass
+
+
 def run_in_thread(fn):
     box = {}
 
@@ -280,10 +284,22 @@ class C12(TraceCheck):
                         yield [init, E("Input", sigint=sig), OP("blocked_sigint", delay=delay), X]
                         yield [init, E("Fullscreen", hide=1), E("Input", sigint=sig), OP("blocked_sigint", delay=delay), X, X]
 
+    _count = 0
+
     def run_history(self, hist):
         main = bool(hist[0].get("main", 1))
         default_handler = signal.default_int_handler
-        signal.signal(signal.SIGINT, default_handler)
+        # the SIGINT disposition in force before anything is entered: Python's default handler, SIG_DFL,
+        # SIG_IGN or an application handler (never SIG_DFL/SIG_IGN when the scenario sends a real SIGINT)
+        real_sigint = any(st.get("name") == "blocked_sigint" for st in hist)
+        C12._count += 1
+        choice = hist[0].get("sig0") or ["default", "dfl", "user", "ign"][C12._count % 4]
+        if real_sigint or not main:
+            choice = "default"
+        initial = {"default": default_handler, "dfl": signal.SIG_DFL, "ign": signal.SIG_IGN,
+                   "user": _user_handler}[choice]
+        hist[0]["sig0"] = choice
+        signal.signal(signal.SIGINT, initial)
         signal.set_wakeup_fd(-1)
 
         def go():
